@@ -270,6 +270,23 @@ def sparse_case(ctx, col, case, rng, tmp):
     return True
 
 
+def flat_case(ctx, col, case, rng):
+    from gscrib.heightmaps import FlatHeightMap
+    hm = FlatHeightMap()
+    for _ in range(5):
+        x, y = rng.uniform(-1e3, 1e3), rng.uniform(-1e3, 1e3)
+        col.count("outside_queries")
+        if float(hm.get_depth_at(x, y)) != 0.0:
+            col.violation("flat-map-nonzero", ctx.case_ref(case), {"x": x, "y": y})
+            return
+    line = [rng.uniform(-50, 50) for _ in range(4)]
+    pts = np.asarray(hm.sample_path(line))
+    col.count("paths_checked")
+    if pts.shape != (2, 3) or list(pts[0]) != [line[0], line[1], 0.0] or list(pts[1]) != [line[2], line[3], 0.0]:
+        col.violation("flat-map-path", ctx.case_ref(case), {"line": line, "points": pts.tolist()})
+    col.key("flat", "-", "line", 0)
+
+
 def run_shard(ctx, col):
     tmp = tempfile.mkdtemp(prefix="c19_")
     try:
@@ -279,6 +296,8 @@ def run_shard(ctx, col):
                 raster_case(ctx, col, case, rng, tmp)
             else:
                 sparse_case(ctx, col, case, rng, tmp)
+            if case % 8 == 0:
+                flat_case(ctx, col, case, rng)
             col.evaluations += 1
             if case % 211 in (0, 1):
                 col.sample({"case": case, "kind": "raster" if case % 2 == 0 else "sparse"})
